@@ -300,6 +300,21 @@ def _reg(ctx, shape):
                 out = ("exc", type(e).__name__, exc_site(e))
             ctx.observe(f"{kind}@{name}", out[0] if out[0] == "ok" else out[:2])
             if registered:
+                # the same message arriving in two pieces goes through the buffered path
+                s3 = S.LDAPServer()
+                s3._packing_options = s_._packing_options
+                cut = len(data) // 2
+                try:
+                    got2 = s3.receive(data[:cut]) + s3.receive(data[cut:])
+                    out2 = ("ok", got2)
+                except Exception as e:  # noqa: BLE001
+                    out2 = ("exc", type(e).__name__, exc_site(e))
+                ctx.require(out2[0] == "ok" and len(out2[1]) == 1, f"registered-{kind}-not-decoded-when-delivered-in-two-pieces")
+                if out2[0] == "ok" and len(out2[1]) == 1:
+                    from checks import msgs as _m
+
+                    ctx.require(_m.msg_eq(ctx, out2[1][0], out[1][0]) if out[0] == "ok" else False, f"registered-{kind}-decodes-differently-in-two-pieces")
+            if registered:
                 ctx.require(out[0] == "ok", f"registered-{kind}-not-decoded")
                 msg = out[1][0]
                 obj = {"control": lambda: msg.controls[0], "filter": lambda: msg.filter, "cred": lambda: msg.authentication}[kind]()
